@@ -28,6 +28,9 @@ func FuncText(f *u.Func) string {
 			if p.Soft {
 				s += "~"
 			}
+			if p.SliceT != "" {
+				s += "^" + p.SliceT
+			}
 			return s
 		default:
 			var fs []string
